@@ -46,10 +46,11 @@ EXHAUSTIVE = {
 REACH = {t: ["sub_rejected", "sub_timeout", "sub_ok", "unsub_rejected", "unsub_timeout", "unsub_ok",
              "full_table", "size_0", "already_subscribed", "startup_subscribed", "probe_free_count_checked",
              "versions_3", "startup_several_endpoints", "startup_group_on_two_endpoints", "rejection_status_family_swept",
-             "overlapping_calls", "startup_again_on_same_object", "through_coordinator_endpoint"] for t in ("quick", "thorough")}
+             "overlapping_calls", "startup_again_on_same_object", "through_coordinator_endpoint", "group_id_zero"] for t in ("quick", "thorough")}
 SHARD_TIMEOUT = {"quick": 900, "thorough": 3600}
 
-G = [0x1001, 0x1002, 0x1003]
+G_DEFAULT = [0x1001, 0x1002, 0x1003]
+G = list(G_DEFAULT)
 FOREIGN = [0x2001, 0x2002, 0x2003, 0x2004]
 FRESH = [0x3001 + i for i in range(8)]
 OPS = [(o, g) for o in ("sub", "unsub") for g in G]
@@ -88,7 +89,9 @@ def shards(tier, seed):
                 chunk = 6
             for c in range(chunk):
                 out.append({"version": V, "n": n, "depth": depth, "chunk": c, "chunks": chunk, "seed": seed,
-                            "ntabs": len(tabs), "sample": 3 if (tier == "quick" and n == 4) else 0})
+                            "ntabs": len(tabs), "sample": 3 if (tier == "quick" and n == 4) else 0,
+                            # boundary group ids (0x0000 is what an unused table entry carries) on every other chunk
+                            "groups": [0x0000, 0x1002, 0xFFFF] if (c + n + V) % 2 else None})
     out.sort(key=lambda d: -d["n"])
     for d in out:
         d["debuglog"] = d["n"] <= 2  # DEBUG logging on the small tables (the big ones are the critical path)
@@ -119,12 +122,17 @@ def is_ok(st):
 def run_shard(desc) -> Acc:
     import bellows.multicast as mcast
 
+    global G, OPS
+    G = list(desc.get("groups") or G_DEFAULT)
+    OPS = [(o, g) for o in ("sub", "unsub") for g in G]
     if desc.get("part") == "endpoint":
         return run_endpoint_shard(desc)
     logmode.apply(desc)
     acc = Acc()
     install_status_contract(acc)
     V, n, depth = desc["version"], desc["n"], desc["depth"]
+    if 0x0000 in G:
+        acc.hit("group_id_zero")
     tabs = initial_tables(n)[desc["chunk"]::desc["chunks"]]
     if desc.get("sample"):
         tabs = tabs[desc["seed"] % desc["sample"]::desc["sample"]]
